@@ -130,7 +130,7 @@ func (x *runner) oneInput(b []byte, class string, expect string) {
 		case !okRef && cp.ok:
 			fail("input the E5 grammar rejects is accepted")
 		case okRef && cp.ok && end != len(cp.raw):
-			fail(fmt.Sprintf("decoded item spans %d bytes, the grammar says %d", len(cp.raw), end))
+			c.Fail("decoded item spans a different number of bytes than the E5 grammar assigns", kase+fmt.Sprintf(" (decoded %d, grammar %d)", len(cp.raw), end))
 		case okRef && cp.ok:
 			if want := refTree(b); want != cp.tree {
 				c.Fail("decoded VALUES (ToBoolean/ToInt/.. accessors) differ from the values the E5 grammar assigns to the bytes", kase+" got "+firstDiff(cp.tree, want))
